@@ -50,10 +50,27 @@ impl Gate {
     }
 }
 
+/// The names the three services register under are related as strings, because names are all a registry can tell
+/// services by: A keeps the default (its type name), B's name is a strict prefix of A's, C's name is A's name with a
+/// suffix.  To the specification they are three different names, so what happens to one must not touch another.
+fn related_name(kind: u8) -> &'static str {
+    static NAMES: std::sync::Mutex<std::collections::BTreeMap<u8, &'static str>> = std::sync::Mutex::new(std::collections::BTreeMap::new());
+    let base = std::any::type_name::<SvcA>();
+    let mut names = NAMES.lock().unwrap();
+    *names.entry(kind).or_insert_with(|| match kind {
+        2 => Box::leak(base[..base.len() - 1].to_string().into_boxed_str()),
+        3 => Box::leak(format!("{base}Audit").into_boxed_str()),
+        _ => base,
+    })
+}
+
 macro_rules! service {
     ($name:ident, $tag:expr, [$($reg:ty),*]) => {
         pub struct $name(pub Gate);
         impl RpcService for $name {
+            fn service_name() -> &'static str {
+                related_name($tag)
+            }
             fn register_handlers(registry: &mut ServiceRegistry<Self>) {
                 $(registry.add_handler::<$reg>();)*
             }
